@@ -30,7 +30,11 @@ Open Scope Z_scope.
 Record cfg := mkCfg { fix2 : bool; fix3 : bool; fix15 : bool }.
 Definition fixed : cfg := mkCfg true true true.
 
-Definition FUEL : nat := 64%nat.
+Definition FUEL : nat := 64%nat.      (* depth of the snapshots the model takes of caption sets *)
+
+(* fuel of the writers' deepcopy: one more than the number of objects in the store - it always suffices on a
+   well-formed store (proofs/DeepcopyFacts.v deepcopy_succeeds), so the Err EOutOfFuel exit of `write` is dead code there *)
+Definition dc_fuel (st : store) : nat := S (length st).
 
 (* pre-existing locations: 0 = the `style={}` default of Caption.__init__, 1 = the `styles={}` default of
    CaptionSet.__init__ (both function-default objects exist from import time on) *)
@@ -46,6 +50,24 @@ Definition tkey_eqb (a b : tree) : bool :=
   | TInt x, TInt y => x =? y
   | TStr x, TStr y => str_eqb x y
   | TNone, TNone => true
+  | _, _ => false
+  end.
+
+(* decidable equality on snapshots *)
+Fixpoint tree_eqb (a b : tree) : bool :=
+  match a, b with
+  | TInt x, TInt y => (x =? y)%Z
+  | TStr x, TStr y => str_eqb x y
+  | TNone, TNone => true
+  | TCut, TCut => true
+  | TNode k1 l1, TNode k2 l2 =>
+      (k1 =? k2)%Z &&
+      (fix go (l1 l2 : list (tree * tree)) : bool :=
+         match l1, l2 with
+         | [], [] => true
+         | (a1, b1) :: t1, (a2, b2) :: t2 => tree_eqb a1 a2 && tree_eqb b1 b2 && go t1 t2
+         | _, _ => false
+         end) l1 l2
   | _, _ => false
   end.
 
@@ -534,7 +556,7 @@ Definition write (c : cfg) (k : Z) (o : wopts) (i : winst) (st : store) (s : val
     (* `if caption_set.is_empty(): return output` before the copy *)
     mkWres st i0 (Ok (mkOut [] (snap FUEL st s))) [] 0
   else
-  match deepcopy FUEL st s with
+  match deepcopy (dc_fuel st) st s with
   | None => mkWres st i0 (Err EOutOfFuel) [] 0
   | Some (st1, s1) =>
       let t := snap FUEL st1 s1 in
@@ -578,7 +600,7 @@ Definition write (c : cfg) (k : Z) (o : wopts) (i : winst) (st : store) (s : val
         let (st2, lg) := merge_all st1 s1 [] in
         let (st3, lg3) := single_assign st2 s1 (match wo_pos o with Some pc => pc | None => 0 end) lg in
         (* DFXPWriter.write on the positioned copy: a second deepcopy, then the DFXP assignments *)
-        match deepcopy FUEL st3 s1 with
+        match deepcopy (dc_fuel st3) st3 s1 with
         | None => mkWres st3 i0 (Err EOutOfFuel) lg3 1
         | Some (st4, s2) =>
             let p := make_plan k o (wi_open i0) (wi_last i0) t in
@@ -637,6 +659,82 @@ Definition last_nodes (st : store) (s : val) : val :=
   | [] => VNone
   end.
 
+(* ---- results of real reads are DAGs: the start and the end node of a <span> carry ONE content dict ----------------------
+   (dfxp/base.py _convert_span_to_nodes, sami.py _translate_span: `args` is passed to both create_style calls; SAMI <i>/<b>/<u>
+   and the SCC reader build two dict literals instead).  Which end nodes share is part of the RESULT the harness hands to
+   the model: in the result tree the content cell of such an end node is the marker TNode KShare [].  The read model
+     1. builds the tree with every marker replaced by the content tree of the matching start node (stack discipline),
+     2. then makes the end node's content slot point to the start node's dict - guarded by "both dicts have the same
+        snapshot at every depth <= FUEL" (always true for a result of a real read: it is one object there). *)
+Definition KShare := 101.
+
+Definition is_share (t : tree) : bool := match t with TNode k _ => k =? KShare | _ => false end.
+Definition node_is_style (n : tree) : bool := match tfield n 1 with TInt 2 => true | _ => false end.
+
+Fixpoint unshare_nodes (ns : list (tree * tree)) (stack : list tree) : list (tree * tree) :=
+  match ns with
+  | [] => []
+  | (TNone, n) :: r =>
+      if node_is_style n then
+        if is_true (tfield n 3) then (TNone, n) :: unshare_nodes r (tfield n 2 :: stack)
+        else
+          let top := match stack with d :: _ => d | [] => TNode KDict [] end in
+          (TNone, if is_share (tfield n 2) then tset_field n 2 top else n) :: unshare_nodes r (tl stack)
+      else (TNone, n) :: unshare_nodes r stack
+  | kv :: r => kv :: unshare_nodes r stack
+  end.
+
+Definition unshare_cap (cap : tree) : tree :=
+  match tfield cap 3 with
+  | TNode k its => tset_field cap 3 (TNode k (unshare_nodes its []))
+  | _ => cap
+  end.
+
+Definition unshare (t : tree) : tree :=
+  match tfield t 1 with
+  | TNode kd its => tset_field t 1 (TNode kd (map (fun kv => (fst kv, map_elems unshare_cap (snd kv))) its))
+  | _ => t
+  end.
+
+Definition has_field (st : store) (v k : val) : bool :=
+  match assoc k (items_of st v) with Some _ => true | None => false end.
+
+Definition same_snapshots (st : store) (a b : val) : bool :=
+  forallb (fun m => tree_eqb (snap m st a) (snap m st b)) (seq 0 (S FUEL)).
+
+(* heap nodes and (marked) tree nodes of one caption walked in parallel; stack = content dicts of the open starts *)
+Fixpoint share_nodes (st : store) (hs : list val) (ts : list tree) (stack : list val) : store :=
+  match hs, ts with
+  | h :: hr, n :: tr =>
+      if node_is_style n then
+        if is_true (tfield n 3) then share_nodes st hr tr (field st h (VInt 2) :: stack)
+        else
+          let st' := match stack with
+                     | d :: _ => if is_share (tfield n 2) && has_field st h (VInt 2)
+                                    && same_snapshots st d (field st h (VInt 2))
+                                 then set_field st h (VInt 2) d else st
+                     | [] => st
+                     end in
+          share_nodes st' hr tr (tl stack)
+      else share_nodes st hr tr stack
+  | _, _ => st
+  end.
+
+Fixpoint share_caps (st : store) (hcs : list val) (tcs : list tree) : store :=
+  match hcs, tcs with
+  | hc :: hr, tc :: tr =>
+      share_caps (share_nodes st (elems st (field st hc (VInt 3))) (telems (tfield tc 3)) []) hr tr
+  | _, _ => st
+  end.
+
+Fixpoint share_langs (st : store) (hls : list (val * val)) (tls : list (tree * tree)) : store :=
+  match hls, tls with
+  | hkv :: hr, tkv :: tr => share_langs (share_caps st (elems st (snd hkv)) (telems (snd tkv))) hr tr
+  | _, _ => st
+  end.
+
+Definition share_set (st : store) (s : val) (t : tree) : store := share_langs st (set_langs st s) (set_langs_t t).
+
 (* SCC: PreCaption objects (kind 7) are kept by the reader; get_all() builds a Caption per PreCaption of the stash
    passing the very same nodes / style / layout objects *)
 Definition KPre := 7.
@@ -671,9 +769,11 @@ Definition read (c : cfg) (rk : Z) (ri : rinst) (t : tree) (st : store) : store 
     let (st6, s) := new_obj st5 KSet [(VInt 1, d); (VInt 2, sty); (VInt 3, VNone)] in
     (st6, mkRinst stash VNone, s)
   else
-    let (st1, s) := build (dflt c) (mark_defaults rk t) st in
-    let last := if (rk =? R_DFXP) || (rk =? R_SAMI) then last_nodes st1 s else VNone in
-    (st1, mkRinst [] last, s).
+    let tm := mark_defaults rk t in
+    let (st1, s) := build (dflt c) (unshare tm) st in
+    let st2 := share_set st1 s tm in
+    let last := if (rk =? R_DFXP) || (rk =? R_SAMI) then last_nodes st2 s else VNone in
+    (st2, mkRinst [] last, s).
 
 (* ---- edits through the public API ------------------------------------------------------------------------------ *)
 Inductive edit : Type :=
@@ -858,3 +958,39 @@ Fixpoint run_world (c : cfg) (w : world) (ops : list op) : world :=
   | [] => w
   | o :: t => run_world c (fst (step c w o)) t
   end.
+
+(* ---- "no set iteration": the enumeration orders of the DFXP region bookkeeping made explicit ------------------------------
+   RegionCreator keeps (a) the unique layouts of the document in an insertion-ORDERED container (_OrderedSet, a list) and
+   gives them the ids r0, r1, .. in iteration order; (b) the ids that were assigned in a hash SET (_assigned_region_ids)
+   that is only ever asked `id in set`.  Every iteration takes its order as a parameter:
+     iter : the order in which container (a) is iterated - the identity for the list the code uses, an arbitrary
+            permutation if it were a hash set (what `unique_regions = set()` would do);
+     enum : the order in which the hash set (b) would enumerate its elements.
+   The other containers the writer models walk are Python dicts (languages, styles) and lists (captions, nodes): insertion
+   ordered by the language definition, no parameter. *)
+Definition layout_eqb (a b : Z) : bool := (a / 256 =? b / 256).      (* Layout.__eq__: the value digest *)
+
+Definition ordered_add (x : Z) (l : list Z) : list Z := if existsb (layout_eqb x) l then l else l ++ [x].
+
+Definition unique_regions (codes : list (option Z)) : list Z :=
+  fold_left (fun acc c => match c with Some x => if flag fT x then ordered_add x acc else acc | None => acc end) codes [].
+
+Definition region_ids (iter : list Z -> list Z) (codes : list (option Z)) : list (Z * nat) :=
+  let u := iter (unique_regions codes) in combine u (seq 0 (length u)).
+
+Definition region_of (ids : list (Z * nat)) (c : Z) : option nat :=
+  match filter (fun p => layout_eqb c (fst p)) ids with p :: _ => Some (snd p) | [] => None end.
+
+(* cleanup_regions: a region stays in the document iff its id is in the assigned set *)
+Definition kept_regions (iter : list Z -> list Z) (enum : list nat -> list nat)
+           (codes : list (option Z)) (used : list nat) : list (Z * nat) :=
+  filter (fun p => existsb (Nat.eqb (snd p)) (enum used)) (region_ids iter codes).
+
+(* the <region> elements and the region attribute of every positioned element of a DFXP document *)
+Definition dfxp_regions (iter : list Z -> list Z) (enum : list nat -> list nat) (o : wopts) (t : tree)
+  : list (Z * nat) * list (option nat) :=
+  let codes := map snd (dfxp_codes (dfxp_langs o t)) in
+  let ids := region_ids iter codes in
+  let refs := map (fun c => match c with Some x => region_of ids x | None => None end) codes in
+  let used := flat_map (fun r => match r with Some i => [i] | None => [] end) refs in
+  (kept_regions iter enum codes used, refs).
